@@ -58,12 +58,25 @@ def generate(R, tier):
         if ty == 0x12 and not wspec.get("ack"):
             pass
         p["win"] = wspec["win"] = G.aim_window(R, p)
+        edge = R.random() < 0.12 and 100 <= p["mss"] <= 65535
+        if edge:                                    # the mss*1 / mss*N boundary of the MSS hint rule
+            k = R.choice([1, 1, 2, 65535 // p["mss"]])
+            k = k if p["mss"] * k <= 65535 else 1
+            p["win"] = wspec["win"] = p["mss"] * k
         s = G.matching_sig(R, p, MD)
+        if edge:
+            wm = G.model_win_multi(p)
+            if wm and 1 <= wm[0] <= 1000:
+                s["wtype"], s["wsize"] = 3 + wm[1], wm[0]
+            s["mss"] = -1
         if s["bad_ttl"]:
             s["ttl"] = min(255, max(1, p["ttl"] + R.choice([0, 3, 40])))
         hops = R.choice([0, 0, 0, 1, 2, 7, 34])
         hops = max(0, min(hops, s["ttl"] - 1, MD - 1))
         base = admissible_base(R, wspec["v"], ty)
+        if edge and s["wtype"] == 3:
+            h = R.choice([1, 50, 99, 100, 101, 65535 // s["wsize"], 65535 // s["wsize"] + 1, 65535])
+            base["opts"] = W.pad4(W.o_mss(max(0, min(65535, h))) + R.choice(["", "01" + W.o_ws(7)]), "01")
         yield {"stream": "witness", "witness": wspec, "sig": G.sig_text(s), "base": base, "ether": R.random() < 0.15, "hops": hops,
                "mtu": R.choice([1500, 1500, 1500, 1400, 9000]) if s["wtype"] == 4 else 1500,
                "uptime": R.choice([None, None, None, 123456]), "policy": R.choice(POLICIES)}
@@ -231,18 +244,20 @@ def in_theorem_domain(mr):
     return isinstance(mm, dict) and "ok" in mm and bool(mm["ok"].get("supported")) and bool(mm["ok"].get("coherent"))
 
 
-def judge(c, ir, mr):
-    w = mr.get("witness") if isinstance(mr, dict) else None
-    if not isinstance(w, dict) or w.get("match") != "EXACT":
-        return None          # the generator failed to produce a satisfiable signature: not a case of the property
-    if not isinstance(ir, dict) or "exc" in ir:
-        return {"kind": "harness-level failure", "why": str(ir)[:300]}
-    mm = mr.get("model")
-    if isinstance(mm, dict) and "ok" in mm and mm["ok"].get("supported") and mm["ok"].get("coherent") and c["uptime"] is None:
-        # the case is inside the domain of theorem C05_supported_sound: the model's own output must pass the oracle
-        if mm["ok"].get("oracle") != {"ok": ["EXACT", c["hops"]]}:
-            return {"kind": "MODEL: a Supported+coherent case whose model output fails the oracle (theorem statement would be false)",
-                    "why": "sig=%s model=%s" % (c["sig"], str(mm)[:300]), "no_failing_input": True}
+def model_state(c, mr):
+    """What the model of the CURRENT code (imp_tcp run on the tape the implementation drew) says about this case."""
+    mm = mr.get("model") if isinstance(mr, dict) else None
+    if not isinstance(mm, dict):
+        return "none", None
+    if "ok" not in mm:
+        return "raise", None
+    b = mm["ok"].get("bytes")
+    if not (isinstance(b, dict) and "ok" in b):
+        return "unencodable", None
+    return ("pass" if mm["ok"].get("oracle") == {"ok": ["EXACT", c["hops"]]} else "oraclefail"), b["ok"]
+
+
+def property_verdict(c, ir, mr):
     if "raised" in ir:
         return {"kind": "impersonate_tcp raised on a satisfiable signature and admissible base", "why": "%s  sig=%s" % (ir["raised"], c["sig"]),
                 "judged_by": "C05 (statement): returns - without raising - ..."}
@@ -255,14 +270,43 @@ def judge(c, ir, mr):
                 "judged_by": "verified extractor (C03) + verified matcher (C01) applied to bytes(out)"}
     if ir.get("fp") != ["EXACT", c["hops"]]:
         return {"kind": "pyp0f's own fingerprint of the output disagrees with the verified oracle", "why": "fp=%s" % (ir.get("fp"),)}
-    m = mr.get("model")
-    mb = None
-    if isinstance(m, dict) and "ok" in m and isinstance(m["ok"].get("bytes"), dict) and "ok" in m["ok"]["bytes"]:
-        mb = m["ok"]["bytes"]["ok"]
-    if mb is None or zero_checksums(mb, ir["ver"]) != zero_checksums(ir["bytes"], ir["ver"]) or m["ok"]["unused_tape"] != 0:
-        return {"kind": "correspondence: the impersonation model no longer reproduces bytes(out) under the same random tape",
-                "why": "model %s impl %s" % (str(m)[:200], ir["bytes"][:200]), "no_failing_input": True}
     return None
+
+
+def judge(c, ir, mr):
+    w = mr.get("witness") if isinstance(mr, dict) else None
+    if not isinstance(w, dict) or w.get("match") != "EXACT":
+        return None          # the generator failed to produce a satisfiable signature: not a case of the property
+    if not isinstance(ir, dict) or "exc" in ir:
+        return {"kind": "harness-level failure", "why": str(ir)[:300]}
+    mm = mr.get("model")
+    if isinstance(mm, dict) and "ok" in mm and mm["ok"].get("supported") and mm["ok"].get("coherent") and c["uptime"] is None:
+        # the case is inside the domain of theorem C05_supported_sound: the model's own output must pass the oracle
+        if mm["ok"].get("oracle") != {"ok": ["EXACT", c["hops"]]}:
+            return {"kind": "MODEL: a Supported+coherent case whose model output fails the oracle (theorem statement would be false)",
+                    "why": "sig=%s model=%s" % (c["sig"], str(mm)[:300]), "no_failing_input": True}
+    ms, mb = model_state(c, mr)
+    pv = property_verdict(c, ir, mr)
+    # correspondence on EVERY case, also inside the known-finding classes: the model is a model of the code as it is, defects included
+    cv = None
+    if ir.get("bytes") and mb is not None:
+        if zero_checksums(mb, ir["ver"]) != zero_checksums(ir["bytes"], ir["ver"]) or mm["ok"]["unused_tape"] != 0:
+            cv = {"kind": "correspondence: the impersonation model no longer reproduces bytes(out) under the same random tape",
+                  "why": "model %s impl %s" % (str(mm)[:200], ir["bytes"][:200]), "no_failing_input": True}
+    elif pv is None:
+        cv = {"kind": "correspondence: the impersonation model no longer reproduces bytes(out) under the same random tape",
+              "why": "model %s impl %s" % (str(mm)[:200], str(ir.get("bytes"))[:200]), "no_failing_input": True}
+    if pv is not None:
+        # a failure counts as the listed finding only if the model of the unchanged code fails on this very case too
+        pv["model_state"] = ms
+        if ms == "pass":
+            pv["why"] += "  [the model of the unchanged code PASSES on this case and tape: not an instance of a listed finding]"
+            return pv
+        from harness import findings
+        if cv is not None and findings.c05_class(c, ir, mr, pv):
+            return cv
+        return pv
+    return cv
 
 
 def shrink(c):
@@ -284,7 +328,7 @@ def shrink(c):
 def classify(c, ir, mr, verdict, findings_list):
     """A failure belongs to a listed finding when the signature is in that structural class (call site + predicate on the input)."""
     from harness import findings
-    if verdict.get("no_failing_input"):
+    if verdict.get("no_failing_input") or verdict.get("model_state") == "pass":
         return None
     cl = findings.c05_class(c, ir, mr, verdict)
     if cl and any(f["id"] == cl for f in findings_list):
